@@ -166,6 +166,26 @@ pub fn check(
         }
     }
 
+    // ---- a flush that reports success has reached every chain that holds unflushed rows ----
+    if flags.c11 || flags.c12 {
+        for (k, (op, o)) in obs.ops.iter().enumerate() {
+            if *op != Op::Flush || !matches!(o, OpOutcome::Ok) {
+                continue;
+            }
+            let start = ev.iter().position(|e| matches!(e, Event::OpStart(i) if *i == k));
+            let end = ev.iter().position(|e| matches!(e, Event::OpEnd(i) if *i == k));
+            let (Some(start), Some(end)) = (start, end) else { continue };
+            for c in 0..scn.chains {
+                let rows_before = records_before(ev, start, c);
+                let finalized = ev[..end].iter().any(|e| matches!(e, Event::ChainFinalize { chain } if *chain == c));
+                let flushed = ev[start..end].iter().any(|e| matches!(e, Event::ChainFlush { chain } if *chain == c));
+                if rows_before > 0 && !finalized && !flushed {
+                    add("C11", "flush-returned-ok-but-skipped-a-chain", format!("op {k}: chain {c} had recorded {rows_before} rows, was not finalised and its storage was not flushed"));
+                }
+            }
+        }
+    }
+
     // ---- per-op results ----
     let mut class_bits: Vec<String> = vec![];
     for (i, (op, o)) in obs.ops.iter().enumerate() {
